@@ -479,8 +479,10 @@ func enumPaths(t *testing.T) {
 			for _, o := range ops {
 				c := PCase{Doc: gridDoc, Ops: []Op{o}}
 				if o.Kind == "set" || o.Kind == "remove" {
-					// look at the result through the same path and through the whole tree
-					c.Ops = append(c.Ops, Op{Kind: "has", Path: p, PS: ps}, Op{Kind: "get", Path: p, PS: ps, AsBag: true})
+					// look at the result through the same path and at four other places
+					c.Ops = append(c.Ops, Op{Kind: "has", Path: p, PS: ps}, Op{Kind: "get", Path: p, PS: ps, AsBag: true},
+						Op{Kind: "get", Path: []Frag{{K: "key", S: "a"}, {K: "key", S: "a"}}}, Op{Kind: "get", Path: []Frag{{K: "key", S: "b"}, {K: "idx", I: 2}}},
+						Op{Kind: "get", Path: []Frag{{K: "key", S: "a"}, {K: "key", S: "b"}, {K: "idx", I: 0}}, AsBag: true}, Op{Kind: "get", Path: []Frag{{K: "key", S: "d"}}, AsBag: true})
 				}
 				if !yield(c) {
 					return
